@@ -106,7 +106,7 @@ impl Property for C13 {
          boundaries, and the ` --> file:line:col:` lines of the printed diagnostics must equal, one by one, the 1-based line and character column computed independently from the byte offset. \
          PART B (single fault): a generated valid program (size-static instruction set, banks, nested labels) with non-ASCII comment lines and trailing comments and (one in three) a chunk \
          moved to an #include'd file; one fault is injected at an item position drawn from the tape - unknown mnemonic, undefined symbol operand, operand beyond every typed range, duplicate \
-         label, malformed directive (`#d8 ,`, `#align`, `#nosuchdirective 1`, a misspelled field behind valid ones in a `#bankdef` block), a built-in function rejecting an argument written on the NEXT line of the call, a faulty `{...}` substitution on one line of a multi-line asm block, an asm-block rule at the end of the file called with an operand longer than its placeholder and out of range for the inner instruction - the reference assembler must reject exactly that item, the FIRST top-level error (for the three nested kinds: the innermost message, which names the cause) must be located in the right file on the faulty line, and every location of the whole message tree must be valid as in part A. Non-trivial = (A) a message with a location in a file containing a multi-byte character before it, (B) a multi-byte character precedes the fault in \
+         label, malformed directive (`#d8 ,`, `#align`, `#nosuchdirective 1`, a misspelled field behind valid ones in a `#bankdef` block, a directive whose missing token is followed by a block comment that runs over a line break), a built-in function rejecting an argument written on the NEXT line of the call, a faulty `{...}` substitution on one line of a multi-line asm block, an asm-block rule at the end of the file called with an operand longer than its placeholder and out of range for the inner instruction - the reference assembler must reject exactly that item, the FIRST top-level error (for the three nested kinds: the innermost message, which names the cause) must be located in the right file on the faulty line, and every location of the whole message tree must be valid as in part A. Non-trivial = (A) a message with a location in a file containing a multi-byte character before it, (B) a multi-byte character precedes the fault in \
          the same file or the fault is in the included file; distinct by hash of the files."
             .to_string()
     }
